@@ -659,7 +659,12 @@ def _cast(a, kind, copy):
     if kind == "U" and a.kind in "SU":
         return ndarray.from_fn(f, a._shape, "U", a.elem)
     if kind in "iu" and a.kind == "f":
-        raise OutOfSubset("float -> int cast (truncation) of symbolic values")
+        # NumPy truncates toward zero.  (Integer LABELS are embedded in the reals in this model -- kind "i", elem "real" --
+        # so the result stays Real-sorted; what matters is that the value changes when it was fractional.)
+        def trunc(t):
+            t = sym._toreal(t)
+            return z3.ToReal(z3.If(t >= 0, z3.ToInt(t), -z3.ToInt(-t)))
+        return ndarray.from_fn(lambda *i: trunc(f(*i)), a._shape, "i", "real")
     if kind == "f" and a.kind == "O" and a.elem in ("int", "real"):
         return ndarray.from_fn(lambda *i: sym._toreal(f(*i)), a._shape, "f", "real")
     if kind == "b" and a.kind == "b":
@@ -845,7 +850,29 @@ def zeros(shape, dtype=float, order="C"):
 def ones(shape, dtype=float, order="C"):
     return full(shape, 1, dtype)
 
+def rollaxis(a, axis, start=0):
+    """NumPy's rollaxis: move `axis` so that it lies before position `start` (ranks are concrete)"""
+    a = asarray(a)
+    n = a.ndim
+    axis = _norm_axis(axis, n)
+    start = conc_req(start)
+    if start < 0:
+        start += n
+    if not 0 <= start <= n:
+        raise ValueError("rollaxis: start out of range")
+    if axis < start:
+        start -= 1
+    if axis == start:
+        return a
+    axes = builtins.list(range(n))
+    axes.remove(axis)
+    axes.insert(start, axis)
+    return a.transpose(axes)
+
+
 def full(shape, v, dtype=None):
+    if isinstance(shape, range):
+        shape = tuple(shape)
     if not isinstance(shape, (tuple, list)):
         shape = (shape,)
     kind = _kind_of_spec(dtype) if dtype is not None else _scalar_array(v).kind
@@ -1371,6 +1398,7 @@ def _setitem(a, key, value):
     # per-dimension: membership test of a source position, and its coordinate in the selection
     tests = []       # per dim: (member(i) -> Bool, coord(i) -> Int | None if the dim is dropped, extent | None)
     arr_oks, arr_empties = [], []      # bounds of index arrays are checked only when no array factor is empty (NumPy's rule)
+    plain_index_arrays = []            # ranks of the integer index arrays met (to tell an open mesh from paired 1-D arrays)
     for d, k in enumerate(key):
         n = a._shape[d]
         if isinstance(k, (int, SymInt)) and not isinstance(k, bool):
@@ -1420,6 +1448,7 @@ def _setitem(a, key, value):
                 own = [ax for ax, s_ in enumerate(arr._shape) if conc(s_) != 1]
                 if len(own) > 1:
                     raise OutOfSubset("integer index array that is not 1-D / an open-mesh factor")
+                plain_index_arrays.append(arr.ndim)
                 ax_own = own[0] if own else (arr.ndim - 1)
                 m = arr._shape[ax_own] if arr.ndim else 1
                 fraw = arr.snapshot()
@@ -1449,6 +1478,11 @@ def _setitem(a, key, value):
                 raise IndexError("arrays used as indices must be of integer (or boolean) type")
         else:
             raise OutOfSubset("assignment key component %s" % type(k).__name__)
+    n_adv = len(arr_empties)
+    if len(plain_index_arrays) >= 1 and n_adv > 1 and builtins.any(r != n_adv for r in plain_index_arrays):
+        # two or more advanced indices that are NOT the factors of an np.ix_ open mesh: NumPy broadcasts them against each
+        # other (1-D arrays are PAIRED element by element), which is not the orthogonal selection modelled here
+        raise OutOfSubset("several advanced indices in an assignment that are not an np.ix_ open mesh (NumPy pairs them)")
     if arr_oks and not ctx().decide(z3.Or(z3.Or(arr_empties), z3.And(arr_oks)),
                                     "integer index arrays in bounds (or the broadcast index is empty)"):
         raise IndexError("index out of bounds")
